@@ -1087,6 +1087,23 @@ pub fn gen_shape(ch: &mut Chooser, lim: &GenLimits, max_blowup: usize) -> Shape 
     if shape.assertions.is_empty() {
         shape.assertions.push(AssertSpec { kind: AssertKind::Single, col: 0, first: 0, stride: 0, count: 1 });
     }
+    // one shape in 25 (where the trace has the room) pins 256..320 cells by single assertions:
+    // more assertions than a one-byte counter holds, spread over every step (round 10)
+    let cols = width.min(32);
+    if cols * n >= 400 && ch.chance("shape.manyassert?", 1, 25) {
+        let target = 256 + ch.index("shape.manyassert.n", 65);
+        let mut r = simcore::rng::Xoshiro::from_u64(ch.u64("shape.manyassert.salt"));
+        let mut guard = 0;
+        while shape.assertions.len() < target && guard < 100_000 {
+            guard += 1;
+            let cell = (r.below(cols as u64) as usize, r.below(n as u64) as usize);
+            if taken.contains(&cell) {
+                continue;
+            }
+            taken.push(cell);
+            shape.assertions.push(AssertSpec { kind: AssertKind::Single, col: cell.0, first: cell.1, stride: 0, count: 1 });
+        }
+    }
     // trace metadata: mostly none; a few bytes; a chunk boundary of to_elements (7 / 8 / 15 / 16)
     let ml = match ch.weighted("shape.meta", &[6, 2, 1, 1]) {
         0 => 0,
